@@ -173,6 +173,8 @@ def table_emissions(m):
             t = rb.term(bi)
             if t['k'] != 'call' or is_log(t):
                 continue
+            if not rb.postdominates(bi, tb):
+                continue      # emitted only on some paths of the arm (a match guard, an if): not a guaranteed emission
             cb = m.prog.bodies.get(callee(t))
             # replicate_web(sender, message) / replicate_message_with_sender: message = the String argument
             if cb is not None and sends_repl(m, cb.id):
